@@ -59,7 +59,7 @@ checks = [
         "deterministic simulation: allocator seam (counting global allocator) around traversals at two scales", "DESIGN.md §5 C14"),
     chk("C15", "exploration",
         "Worlds of 2-6 builder tasks that receive one accepted sequence through different front ends (incl. from_iter/memory entry points and the union-of-parts merge recipe), call groupings, sink schedules and buffer layers, plus disturber tasks, interleaved call by call by a seeded scheduler; "
-        "all outputs must be byte-identical. The same run indices are re-executed in separate processes at 1 and 16 workers and per-index digests compared (the threads/processes clause).",
+        "all outputs must be byte-identical. The same run indices are re-executed in separate processes at several worker counts and per-index digests compared (processes clause). Threads clause: Engine C compiles an instrumented copy of the library (std sync primitives mapped to shuttle) and lets 2-4 simulated threads build the same sequence through different entry points as the first thing in a fresh process, then warm, under seeded schedules.",
         TB_A + " Interleaving is at public-call granularity (the library has no shared mutable state).",
         "deterministic simulation: seeded call-level scheduler over multiple builder tasks + cross-process re-execution", "DESIGN.md §5 C15"),
     chk("C20", "fault_enumeration",
@@ -104,6 +104,8 @@ manifest = {
     "engines": [
         {"name": "fstsim", "path": "/verif/sim", "serves_properties": ["C01", "C06", "C07", "C08", "C11", "C13", "C14", "C15", "C20"],
          "kind_free_text": "Engine A: PRNG-driven simulated file (short writes, EINTR, errors, Ok(0), flush failure, crash, corruption), optional real BufWriter layer, counting global allocator, call-level task scheduler, reference models, ddmin minimiser, explicit JSON replay files"},
+        {"name": "libsim", "path": "/verif/libsim", "serves_properties": ["C15"],
+         "kind_free_text": "Engine C: the fst library compiled from an instrumented copy (std::sync atomics/Mutex/RwLock/Condvar/Once/mpsc, thread spawn, thread_local! mapped textually to shuttle) so that any shared state inside the library becomes scheduling points of our seeded scheduler; fresh process per world (cold statics), 2-4 simulated threads per execution"},
         {"name": "binsim", "path": "/verif/simbin", "serves_properties": ["C19"],
          "kind_free_text": "Engine B: the real fst-bin merge pipeline (#[path]-included sources) on shuttle coroutines under our own seeded Scheduler, crossbeam-channel replaced by a shim through a dependency rename"},
     ],
